@@ -21,6 +21,18 @@ func intrinsics() map[string]intrinsic {
 	m := map[string]intrinsic{}
 	// ---- sync.Pool
 	m["(*sync.Pool).Get"] = func(st *State, fn *ssa.Function, args []Value) Value {
+		// POOLREUSE=1: the pool hands back the object most recently Put (a legal
+		// sync.Pool behaviour that maximises state carried between calls);
+		// otherwise every Get is served by New (also legal)
+		if st.w.Params["POOLREUSE"] == 1 {
+			if pa := tm(args[0]); pa.IsConst() {
+				if stack := st.pools[pa.V]; len(stack) > 0 {
+					v := stack[len(stack)-1]
+					st.pools[pa.V] = stack[:len(stack)-1]
+					return v
+				}
+			}
+		}
 		pt := fn.Signature.Recv().Type().(*types.Pointer).Elem()
 		ti := st.tc.of(pt)
 		s := pt.Underlying().(*types.Struct)
@@ -36,7 +48,17 @@ func intrinsics() map[string]intrinsic {
 		st.end("UNSUPPORTED", "sync.Pool without New field")
 		return nil
 	}
-	m["(*sync.Pool).Put"] = func(st *State, fn *ssa.Function, args []Value) Value { return nil }
+	m["(*sync.Pool).Put"] = func(st *State, fn *ssa.Function, args []Value) Value {
+		if st.w.Params["POOLREUSE"] == 1 {
+			if pa := tm(args[0]); pa.IsConst() {
+				if st.pools == nil {
+					st.pools = map[uint64][]Value{}
+				}
+				st.pools[pa.V] = append(st.pools[pa.V], args[1])
+			}
+		}
+		return nil
+	}
 	// ---- sync primitives in sequential runs
 	for _, n := range []string{"(*sync.Mutex).Lock", "(*sync.Mutex).Unlock", "(*sync.RWMutex).Lock", "(*sync.RWMutex).Unlock",
 		"(*sync.RWMutex).RLock", "(*sync.RWMutex).RUnlock"} {
